@@ -18,7 +18,10 @@ RULE = ("corpus; single-function boundary grid (lists of size 0..3(4), tuple and
         "argument in [-3, len+3], every registered function of the two modules at least once); seeded random typed "
         "pipelines of 1..4 functions over tuple/iterator/set/dict/record/range/repeat/sequence/generate/generateMany sources "
         "(elements: ints in [-3,9], nulls, pairs, nested lists; duplicates likely; sizes 0..8); non-trivial = "
-        "at least one function applied to a non-empty collection; distinct = distinct (source, stages)")
+        "at least one function applied to a non-empty collection; distinct = distinct (source, stages); groupBy's aggregator "
+        "protocol: [key, value] pairs with group sizes 1..3 in every order (values ints / strings / pairs / lists), aggregators in "
+        "the new style, the pre-1.1.1 style and ones failing on a later group (IndexError, NoMatchingMethod), contexts with "
+        "group_by_agg_fallback on and off, result or error class compared with the state machine gagg_run")
 TRUSTED = ["Model/Queries.v + Model/Streams.v are hand transcriptions of queries.py / collections.py / utils.memorize; "
            "tied by this correspondence (vm_compute inside Coq)",
            "harness/streams_common.py: printers of values, lambdas and stages into yaql text and into Gallina"]
